@@ -168,8 +168,9 @@ func callWrapsError(call *ssa.Call) bool {
 }
 
 func checkC05(c *Ctx, r *Report) {
-	r.Rules = []string{"D1+D5 plan decision table", "D6 Less ordering table", "K2 insert-after-collision-check", "K1 key=destination", "O5 parents-before-entry / sort-before-return", "T2 order-insensitive map iteration (files, glob)", "G-base the base of every relative-path computation is a whole directory", "G-prefix no bare string-prefix containment test on paths", "G-cutset trim cutsets with path characters are single characters", "G-rooted absolute-path normalisers anchor at the root before cleaning", "fixture"}
+	r.Rules = []string{"D1+D5 plan decision table", "D6 Less ordering table", "K2 insert-after-collision-check", "K1 key=destination", "O5 parents-before-entry / sort-before-return", "T2 order-insensitive map iteration (files, glob)", "G-base the base of every relative-path computation is a whole directory", "G-prefix no bare string-prefix containment test on paths", "G-cutset trim cutsets with path characters are single characters", "G-rooted absolute-path normalisers anchor at the root before cleaning", "fixture", "O5-parents-clean ancestors are those of the normalised destination", "D5-glob-source expanded entries come from glob.Glob", "K2b an implied directory (and nothing else) is replaced by a declared one"}
 	r.Explanation = "Static decision of the structural necessary conditions of content planning: (D1+D5) files.PrepareForPackager is abstractly evaluated (finite-domain constant propagation over go/ssa, no execution) for every cell packager x entry-packager-tag x entry type, and the set of live plan mechanisms (skip / dir insert / single insert / tree walk / glob / invalid-type error) is compared with the table transcribed from the statement; (D6) Contents.Less is evaluated on all 27 orderings of (destination, type, packager) and must be the lexicographic order; (K2) every insert into the destination map is dominated by a lookup on the same map whose occupied edge can return the collision error; (O5) parents are added before each declared entry and the returned slice is sorted before every success return; (T2) every map range in files/glob is order-insensitive by an enumerated idiom; (G-base) every definition of the base argument of filepath.Rel in files and internal/glob is the entry's configured path or was cut at a separator by filepath.Dir after any string slicing, and (G-prefix) no strings.HasPrefix/TrimPrefix/CutPrefix in those packages takes a computed prefix that does not end in a separator by construction - a common string prefix is not a directory. Not decided: lexical cleaning, which directory is the deepest common one for a given match list, tree walking on disk."
+	r.Explanation += " (G-cutset) constant cutsets of strings.Trim* that contain path characters are single characters. (G-rooted) every return of files.NormalizeAbsolute* is cleaned after being anchored at the root, and a '/' suffix is appended only where the root has been told apart. (O5-parents-clean) the enumeration of an entry's ancestors starts from its normalised destination. (K3) the helper that switches between the two key spellings is given the entry's normalised key."
 	r.Assumptions = []string{
 		"filepath.Clean/Join/Rel, fileglob and WalkDir behave as documented (path normalisation semantics are not analysed)",
 		"a Content entry is touched by the planner's selection logic only through ==/!= comparisons of its Type and Packager fields (any other use makes the evaluator fork both ways)",
@@ -426,6 +427,14 @@ func sameValue(a, b ssa.Value) bool {
 	if ok1 && ok2 && ua.X == ub.X {
 		return true
 	}
+	// loads of the same field of the same object
+	if ok1 && ok2 {
+		fa, okA := ua.X.(*ssa.FieldAddr)
+		fb, okB := ub.X.(*ssa.FieldAddr)
+		if okA && okB && fa.Field == fb.Field && (fa.X == fb.X || sameValue(fa.X, fb.X)) {
+			return true
+		}
+	}
 	return false
 }
 
@@ -506,6 +515,12 @@ func checkReplacementTable(c *Ctx, r *Report, fn *ssa.Function, mu *ssa.MapUpdat
 			cons := fmt.Sprintf("%s [lookup#%d (%s) finds %q]", construct, li+1, kind, typ)
 			if live && !allowed {
 				r.Fail("K2b", cons, c.instrPos(mu), fmt.Sprintf("with the destination already occupied by an entry of type %q the insert is still reachable: the occupant would be silently replaced or doubled (only an implied directory may be replaced, and only by a directory stored under the same key)", typ))
+			} else if allowed && !live && hit.index != nil && sameValue(hit.index, mu.Key) && keySpellings(c, mu.Key, fn, 0)["NormalizeAbsoluteDirPath"] && !insertsOnlyImplicitDirs(fn, mu) {
+				// the other half: a declared directory (or a directory of a
+				// replicated tree) must take the place of the implied one -
+				// otherwise it keeps the placeholder's root:root 0755 and,
+				// in rpm, is not recorded at all
+				r.Fail("K2b", cons, c.instrPos(mu), "with the destination occupied by an implied directory the insert of the declared directory is not reachable: the directory keeps the placeholder's owner, group and mode instead of the declared ones")
 			} else {
 				r.Pass("K2b", cons, c.instrPos(mu), fmt.Sprintf("insert reachable=%v", live))
 			}
